@@ -421,6 +421,11 @@ BUDGET = {"admm": 300, "ladmm": 1500, "padmm": 3000, "nlpadmm": 3000, "pdhg": 20
 
 
 def one(ctx, model, rng, alg, recipe, kkt, xs, traj, tag):
+    # non-linear C / H make the problem non-convex: only the fixed-point part of the property applies
+    if alg == "pdhg" and recipe.get("nl") is not None:
+        traj = False
+    if alg == "nlpadmm" and any(recipe["H"]["q"]):
+        traj = False
     ok = fixed_point_case(ctx, model, recipe, kkt)
     d0 = None
     if ok and traj:
@@ -454,11 +459,6 @@ def correspond(ctx, model):
             traj = (it % 3 == 0) if not ctx.thorough else (it % 2 == 0)
             if alg in ("pgm", "apgm"):
                 traj = True
-            # non-linear C / H make the problem non-convex: only the fixed-point part of the property applies
-            if alg == "pdhg" and recipe.get("nl") is not None:
-                traj = False
-            if alg == "nlpadmm" and any(recipe["H"]["q"]):
-                traj = False
             one(ctx, model, rng, alg, recipe, kkt, xs, traj, "manufactured")
 
 
